@@ -79,8 +79,11 @@ UaxCutsOp(s, opps) ==
 
 UaxWordsOp(s, opps) == WordsFromCuts(s, UaxCutsOp(s, opps))
 
-\* sep: "ascii" | "uax"
-FindWords(s, sep, opps) == IF sep = "uax" THEN UaxWordsOp(s, opps) ELSE AsciiWordsOp(s)
+\* sep: "ascii" | "uax" | "custom" (WordSeparator::Custom of the harness: `opps` is then the set of cut positions)
+FindWords(s, sep, opps) ==
+  IF sep = "uax" THEN UaxWordsOp(s, opps)
+  ELSE IF sep = "custom" THEN WordsFromCuts(s, opps \cap (2..Len(s)))
+  ELSE AsciiWordsOp(s)
 
 (* ---------- structural facts about a word list (C11, shared with C12) ---------- *)
 \* contiguous cover of the whole line
